@@ -18,7 +18,7 @@ PROP = 'C08'
 
 TIERS = {
     # runs, shuffles per input, valuations per input, wall cap of the batch (s)
-    'quick': dict(runs=50000, shuffles=2, valuations=20, wall=75, hashseed_slices=0),
+    'quick': dict(runs=46000, shuffles=2, valuations=20, wall=75, hashseed_slices=1),
     'thorough': dict(runs=400000, shuffles=6, valuations=44, wall=1500, hashseed_slices=3),
 }
 
@@ -220,6 +220,7 @@ def execute(sc, stats=None, only_policy=None, only_vals=None, real_set=False, tr
         if trace is not None:
             trace.append((pi, type(exc).__name__ if exc is not None else str(out), [p for _n, p in policy.observed] if policy is not None else None))
         if policy is not None:
+            stats.setdefault('_perms', set()).update((n, tuple(p)) for n, p in policy.observed)
             nperm = sum(1 for n, p in policy.observed if n >= 2)
             count('set_iterations', nperm)
             count('set_iterations_nonidentity', sum(1 for n, p in policy.observed if list(p) != list(range(n))))
@@ -358,7 +359,8 @@ def worker(job):
             found.append(v)
         if len(found) >= 40:
             break
-    return {'stats': stats, 'violations': found, 'digests': digests, 'lines': sorted(hits),
+    perms = sorted(stats.pop('_perms', set()))
+    return {'stats': stats, 'violations': found, 'digests': digests, 'lines': sorted(hits), 'perms': perms,
             'distinct_inputs': len(texts), 'distinct_changed': len(changed_texts), 'samples': samples}
 
 
@@ -545,7 +547,9 @@ def main(argv):
     distinct_inputs = distinct_changed = 0
     samples = []
     digests = []
+    perms = set()
     for r in results:
+        perms.update((n, tuple(p)) for n, p in r.get('perms', ()))
         core.merge_counts(stats, {k: v for k, v in r['stats'].items() if k != 'reject_samples'})
         found.extend(r['violations'])
         lines.update(r['lines'])
@@ -569,7 +573,7 @@ def main(argv):
         env['HPLSIM_HASHSEED'] = hs
         env['PYTHONHASHSEED'] = hs
         cmd = [sys.executable, os.path.join(core.VERIF, 'check.py'), PROP, '--tier', args.tier, '--real-set-slice',
-               '--runs', str(max(2000, stats.get('runs', 0) // 20)), '--offset', str(10_000_000 * (i + 1))]
+               '--runs', str(max(2500, stats.get('runs', 0) // 20)), '--offset', str(10_000_000 * (i + 1))]
         try:
             p = subprocess.run(cmd, env=env, capture_output=True, text=True, timeout=cfg['wall'] + 300)
             line = [ln for ln in p.stdout.splitlines() if ln.startswith('SLICE-JSON ')]
@@ -652,6 +656,8 @@ def main(argv):
             'set_iterations_owned_by_scheduler': stats.get('set_iterations', 0),
             'set_iterations_with_non_identity_order': stats.get('set_iterations_nonidentity', 0),
             'simplify_calls_reaching_an_order_choice': stats.get('calls_reaching_set_order', 0),
+            'distinct_permutations_applied': len(perms),
+            'largest_permuted_set': max([n for n, _p in perms] or [0]),
         },
         'valuation_outcomes': {k[4:]: v for k, v in stats.items() if k.startswith('val_')},
         'exceptions': {k: v for k, v in stats.items() if k.startswith('raised_')},
